@@ -72,6 +72,10 @@ class Conv:
             return [14, 5, 11 + S.CHUNK_TYPES.index(e[1]), self.e(e[2])]
         if k == 'numchunks':
             return [14, 6, S.CHUNK_TYPES.index(e[1]), self.e(e[2])]
+        if k == 'the':
+            return [17, self.n(e[1])]
+        if k == 'accessor':
+            return [18, self.n(e[2]), self.e(e[1])]
         if k == 'special':
             return [16, 0, S.SPECIAL_PROPS.index(e[1])]
         if k == 'datetime':
